@@ -1,0 +1,51 @@
+//go:build verif
+
+// Verification hook (build tag "verif" only): thin exports of unexported entry points for the
+// /verif runtime monitors.  Additive; nothing here is compiled into a normal build.
+
+package calico
+
+import (
+	"fmt"
+
+	v3 "github.com/projectcalico/api/pkg/apis/projectcalico/v3"
+	log "github.com/sirupsen/logrus"
+
+	"github.com/projectcalico/calico/confd/pkg/backends/types"
+	"github.com/projectcalico/calico/libcalico-go/lib/backend/api"
+	"github.com/projectcalico/calico/libcalico-go/lib/backend/model"
+)
+
+// VerifClusterRoutePolicy exposes clusterRoutePolicyFromBGPConfig: which classes of IP pool BIRD
+// is responsible for, given the default BGPConfiguration (nil = resource absent).
+func VerifClusterRoutePolicy(cfg *v3.BGPConfiguration) (ipip, noEncap bool) {
+	p := clusterRoutePolicyFromBGPConfig(cfg, log.WithField("verif", true))
+	return p.ipip, p.noEncap
+}
+
+// VerifProcessIPPools builds a client whose cache is filled, through the same updateCache path
+// the syncer callback uses, with the given v1 IP pool KVPairs (plus this node's IPv4 subnet when
+// localSubnetV4 is non-empty), installs bgpCfg as the default BGPConfiguration and runs the real
+// processIPPools for one IP version.  It returns the resulting BIRD config fragment.
+func VerifProcessIPPools(nodeName string, pools []*model.KVPair, localSubnetV4 string, bgpCfg *v3.BGPConfiguration, ipVersion int) (*types.BirdBGPConfig, error) {
+	NodeName = nodeName
+	c := &client{
+		cache:        map[string]string{},
+		peeringCache: map[string]string{},
+		configCache:  make(map[int]*bgpConfigCache),
+	}
+	for _, kvp := range pools {
+		if !c.updateCache(api.UpdateTypeKVNew, kvp) {
+			return nil, fmt.Errorf("verif: pool %v was not accepted into the cache", kvp.Key)
+		}
+	}
+	if localSubnetV4 != "" {
+		c.cache[fmt.Sprintf("/calico/bgp/v1/host/%s/network_v4", nodeName)] = localSubnetV4
+	}
+	c.globalBGPConfig = bgpCfg
+	config := &types.BirdBGPConfig{NodeName: nodeName}
+	if err := c.processIPPools(c.getBGPProcessorContext(), config, ipVersion); err != nil {
+		return nil, err
+	}
+	return config, nil
+}
